@@ -856,7 +856,8 @@ class Name:
         """
 
         if self.is_subdomain(origin):
-            return Name(self[: -len(origin)])
+            # Note we don't slice with -len(origin), as that is wrong for an empty origin.
+            return Name(self.labels[: len(self.labels) - len(origin.labels)])
         else:
             return self
 
